@@ -73,11 +73,18 @@ func c12Eval(c *fw.Ctx, data any) {
 	copy(buf, wire)
 	var msg util.Message
 	var perr error
-	p, pv, st := fw.Recover(func() { msg, perr = of.Parse(buf) })
-	if p {
-		c.Violation(kind, "panic", fw.LibFrame(st), pv+"\n"+fw.TrimStack(st))
+	vd := fw.Guard(len(buf), func() { msg, perr = of.Parse(buf) })
+	switch vd.Class {
+	case "panic":
+		c.Violation(kind, "panic", fw.LibFrame(vd.Stack), vd.Panic+"\n"+fw.TrimStack(vd.Stack))
+		return
+	case "cpu", "alloc":
+		c.Count("parser_over_budget_skipped", 1) // C07's business; the call may still be running: leave this process
+		c.Poison()
 		return
 	}
+	var p bool
+	var pv, st string
 	if perr != nil || isNil(msg) {
 		c.Count("rejected_by_parser", 1)
 		return
